@@ -12,14 +12,14 @@ def decode(string):
   return obj
 
 def validate_encoded(string):
-  if not re.match("^[!-~]+[+-]$", string):
+  if not re.match(r"^[!-~]+[+-]\Z", string):
     raise gfapy.FormatError(
       "{} is not a valid oriented GFA2 identifier\n".format(repr(string))+
       "(it contains spaces or non-printable characters, or a wrong orientation)")
 
 def validate_decoded(obj):
   if isinstance(obj, gfapy.OrientedLine):
-    if not re.match("^[!-~]+$", obj.name):
+    if not re.match(r"^[!-~]+\Z", obj.name):
       raise gfapy.FormatError(
           "{} is not a valid oriented GFA2 identifier\n".format(repr(obj.name)))
     if obj.orient != "+" and obj.orient != "-":
